@@ -104,6 +104,8 @@ pub fn read_facts_and_rules(file_name: &str) -> Result<Vec<String>, String> {
         Ok(lines) => {
 
             let mut line_number = 1;
+            let mut round_depth  = 0;  // Bracket depths, carried
+            let mut square_depth = 0;  // from line to line.
             for line in lines {
                 // A read that fails is an error, not a line to skip: skipping it
                 // drops a line silently (invalid UTF-8), or never ends (a device
@@ -113,7 +115,8 @@ pub fn read_facts_and_rules(file_name: &str) -> Result<Vec<String>, String> {
                     return Err(msg);
                 }
                 if let Ok(line) = line {
-                    let line = strip_comments(&line);
+                    let line = strip_comments_at_depth(&line, &mut round_depth,
+                                                       &mut square_depth);
                     if line.len() > 0 {
                         match check_last_char(&line, line_number) {
                             Some(msg) => { return Err(msg); },
@@ -227,11 +230,39 @@ pub mod verif_io {
 /// * `original line`
 /// # Return
 /// * `line without comments`
+#[cfg(test)]  // The loader uses strip_comments_at_depth().
 fn strip_comments(line: &str) -> String {
-
-    let mut previous = 'x';
     let mut round_depth  = 0;
     let mut square_depth = 0;
+    strip_comments_at_depth(line, &mut round_depth, &mut square_depth)
+}
+
+/// Strips comments from a line which may begin inside parentheses or
+/// brackets that were opened on an earlier line.
+///
+/// A rule can be split over several lines inside its parentheses:
+///
+/// <pre>
+/// loves(edge(Alfred,
+///      Bertha), Carl).   % A comment.
+/// </pre>
+///
+/// The depths of round and square brackets are therefore carried from
+/// line to line. (Counted per line, the comment above would seem to be
+/// inside brackets, and would be loaded as a fact.)
+///
+/// # Arguments
+/// * `original line`
+/// * `depth of round brackets` - at the start of the line, updated
+/// * `depth of square brackets` - at the start of the line, updated
+/// # Return
+/// * `line without comments`
+fn strip_comments_at_depth(line: &str, round: &mut i32,
+                           square: &mut i32) -> String {
+
+    let mut previous = 'x';
+    let mut round_depth  = *round;
+    let mut square_depth = *square;
 
     let mut index = 0;
     let mut has_comment = false;
@@ -256,6 +287,9 @@ fn strip_comments(line: &str) -> String {
         previous = *ch;
     }
 
+    *round  = round_depth;
+    *square = square_depth;
+
     if has_comment {
         return chars_to_string!(chrs[0..index]).trim().to_string();
     }
@@ -263,7 +297,7 @@ fn strip_comments(line: &str) -> String {
         return chars_to_string!(chrs).trim().to_string();
     }
 
-}  // strip_comments
+}  // strip_comments_at_depth
 
 /// Divides a text string into a list of facts and rules.
 ///
